@@ -46,6 +46,9 @@ func (s *shardSet) close() {
 	s.m = map[string]*Shard{}
 }
 
+// compareReference: run x/net's decoder / framer next to MOSN's (only property C18 is about the reference)
+var compareReference = true
+
 func coqHoutBytes(b []byte, err error) string {
 	if err == nil {
 		return "(HOk " + cb(b) + ")"
@@ -387,7 +390,13 @@ func hpackReprSessions(run *Run, ss *shardSet, n int, malformed bool) {
 				tainted = true
 			}
 			if !tainted {
-				xo := runDec(xd, wops)
+				var xo []dobs
+				if compareReference {
+					xo = runDec(xd, wops)
+				} else {
+					xo = mo
+					xdead = true
+				}
 				var mf, xf []hfield
 				for _, o := range mo {
 					mf = append(mf, o.Fields...)
@@ -489,4 +498,14 @@ func leadingSizeUpdates(b []byte) int {
 		b = rem
 	}
 	return n
+}
+
+func huffDecode(maxLen int, in []byte) ([]byte, error) {
+	var buf bytes.Buffer
+	var derr error
+	perr := guarded(func() error { derr = mhpack.VerifHuffmanDecode(&buf, maxLen, in); return nil })
+	if perr != nil {
+		return nil, perr
+	}
+	return buf.Bytes(), derr
 }
